@@ -181,7 +181,10 @@ def run_case(ctx, case):
     if case["fn"] == "Arnoldi()" and case["start"] != "batched":
         out = ctx.call(Arnoldi(**kw), A)
     else:
-        out = ctx.call(arnoldi, A, **kw)
+        if case["seed"] % 3 == 0 and set(kw) == {"start_vector", "max_iters", "tol"}:  # documented positional form
+            out = ctx.call(arnoldi, A, kw["start_vector"], kw["max_iters"], kw["tol"])
+        else:
+            out = ctx.call(arnoldi, A, **kw)
     if is_err(out):
         ctx.check("returns", False, site="arnoldi", preds=preds, detail={"error": repr(out)})
         return
